@@ -73,7 +73,7 @@ def build_harness(log=None):
     if bad:
         shutil.rmtree(d, ignore_errors=True)
         raise BuildError("\n".join(r.stdout for r in bad))
-    r = sh(["clang-14", "-fsanitize=address,undefined", "-o", exe + ".tmp"] +
+    r = sh(["clang-14", "-fsanitize=address,undefined", "-Wl,--wrap=fopen", "-o", exe + ".tmp"] +
            [os.path.join(d, s + ".o") for s in SRC] + [os.path.join(d, "lvh.o")])
     if r.returncode != 0:
         shutil.rmtree(d, ignore_errors=True)
